@@ -31,7 +31,7 @@ class Unit:
     def __init__(self, name, tu, harness, enforce=None, replace=(), shape="U", props=(), loops=False,
                  unwind=None, unwindset=(), defs=(), covers=0, timeout=(300, 1800), mem=16, tiers=("quick", "thorough"),
                  bound=None, tdefs=None, funcs=None, expect_loop_obligations=0, rec=False, extra_cbmc=(), note="",
-                 safety_props=None, no_contract=False, nondet_static=False, tunwind=None, checks_off=(), bounded_loops=()):
+                 safety_props=None, no_contract=False, nondet_static=False, tunwind=None, checks_off=(), bounded_loops=(), object_bits=8, slice_formula=True):
         self.name = name; self.tu = tu; self.harness = harness; self.enforce = enforce
         self.replace = list(replace); self.shape = shape; self.props = list(props); self.loops = loops
         self.unwind = unwind; self.unwindset = list(unwindset); self.defs = list(defs); self.covers = covers
@@ -46,6 +46,7 @@ class Unit:
         self.nondet_static = nondet_static
         self.checks_off = list(checks_off)      # checks disabled for this unit, with the reason in `note`
         self.bounded_loops = list(bounded_loops)  # S/B units: regexes of unwinding assertions that ARE the stated bound
+        self.object_bits = object_bits; self.slice_formula = slice_formula
         self.entry = "h_" + name
 
 def make_scratch():
@@ -79,7 +80,7 @@ def run_unit(u, scratch, tier="quick", use_cache=True, keep=False):
     t0 = time.time()
     work = tempfile.mkdtemp(prefix="vfu_", dir=scratch)
     res = {"unit": u.name, "shape": u.shape, "tier": tier, "status": "undecided", "reason": "", "obligations": [],
-           "wall_s": 0.0, "solver_s": 0.0, "backend": "cbmc 6.11.0 / SAT cadical", "cached": False, "bound": u.bound,
+           "wall_s": 0.0, "solver_s": 0.0, "backend": "cbmc 6.11.0 / SAT cadical (--object-bits %d%s)" % (u.object_bits, " --slice-formula" if u.slice_formula else ""), "cached": False, "bound": u.bound,
            "functions": u.funcs, "covers": []}
     defs = BASE_DEFS + ["-DVF_TIER_" + tier.upper()] + (["-DVF_ENF_" + u.enforce] if u.enforce else []) + u.defs + u.tdefs.get(tier, [])
     harness = os.path.join(VERIF, u.harness)
@@ -91,7 +92,7 @@ def run_unit(u, scratch, tier="quick", use_cache=True, keep=False):
     if rc != 0:
         res["reason"] = "preprocess failed: " + err[-2000:]
         return _finish(res, t0, work, keep)
-    flags = json.dumps([u.entry, u.enforce, u.replace, u.loops, unwind, u.unwindset, u.rec, u.extra_cbmc, CBMC_CHECKS, u.checks_off, u.no_contract, u.nondet_static, u.covers])
+    flags = json.dumps([u.entry, u.enforce, u.replace, u.loops, unwind, u.unwindset, u.rec, u.extra_cbmc, CBMC_CHECKS, u.checks_off, u.object_bits, u.slice_formula, u.no_contract, u.nondet_static, u.covers])
     pre_n = re.sub(r'^# \d+ "[^"]*".*$', "", _norm(pre, scratch), flags=re.M)
     key = hashlib.sha256((pre_n + flags).encode()).hexdigest()
     cpath = os.path.join(CACHE, key + ".json")
@@ -137,13 +138,15 @@ def run_unit(u, scratch, tier="quick", use_cache=True, keep=False):
             return _finish(res, t0, work, keep)
         cur = gb2
     # ---- solve
-    cmd = ["cbmc", cur, "--sat-solver", "cadical", "--object-bits", "12"] + [c for c in CBMC_CHECKS if c not in u.checks_off] + ["--json-ui", "--trace", "--unwinding-assertions", "--drop-unused-functions"]
+    cmd = ["cbmc", cur, "--sat-solver", "cadical", "--object-bits", str(u.object_bits)] + (["--slice-formula"] if u.slice_formula else []) + [c for c in CBMC_CHECKS if c not in u.checks_off] + ["--json-ui", "--unwinding-assertions", "--drop-unused-functions"]
     if unwind is not None:
         cmd += ["--unwind", str(unwind)]
     # loops of the contracts library iterate over the assigns/frees targets: give them their own generous bound
-    lib = ["__CPROVER_contracts_write_set_check_assigns_clause_inclusion.0:80", "__CPROVER_contracts_write_set_check_frees_clause_inclusion.0:80",
-           "__CPROVER_contracts_write_set_deallocate_freeable.0:80", "__CPROVER_contracts_write_set_deallocate_freeable.1:80",
-           "__CPROVER_contracts_write_set_deallocate_freeable.2:80"] if cur == gb2 else []
+    lib = []
+    if cur == gb2:
+        rc_l, out_l, err_l, _ = sh(["goto-instrument", "--show-loops", cur], 120)
+        for lid in sorted(set(re.findall(r"Loop (__CPROVER_contracts_\S+?):", out_l))):
+            lib.append(lid + ":80")
     if u.unwindset or lib:
         cmd += ["--unwindset", ",".join(list(u.unwindset) + lib)]
     cmd += u.extra_cbmc
@@ -166,6 +169,10 @@ def run_unit(u, scratch, tier="quick", use_cache=True, keep=False):
                 results = o["result"]
             if o.get("messageType") in ("ERROR", "WARNING"):
                 msgs.append(o.get("messageText", ""))
+    errs = [m for o in js if isinstance(o, dict) and o.get("messageType") == "ERROR" for m in [o.get("messageText", "")]]
+    if any("memory" in e.lower() for e in errs):
+        res["reason"] = "cbmc ran out of memory: " + " | ".join(errs)[:300]
+        return _finish(res, t0, work, keep)
     if results is None:
         res["reason"] = "cbmc gave no result list (rc=%d): %s" % (rc, " | ".join(msgs)[-1500:])
         return _finish(res, t0, work, keep)
@@ -190,6 +197,19 @@ def run_unit(u, scratch, tier="quick", use_cache=True, keep=False):
         obs.append(o)
     res["obligations"] = obs
     res["status"] = "done"
+    # counterexample traces: separate runs restricted to one failed obligation each (a full --trace run exhausted memory)
+    want = [o for o in obs if o["status"] == "FAILURE" and not o["desc"].startswith("VF_COVER")][:int(os.environ.get("VERIF_TRACES", "3"))]
+    for o in want:
+        tcmd = [c for c in cmd if c != "--json-ui"] + ["--json-ui", "--trace", "--property", o["name"]]
+        rc2, out2, err2, _ = sh(tcmd, min(timeout, 600), mem_gb=u.mem)
+        try:
+            for x in json.loads(out2):
+                if isinstance(x, dict) and "result" in x:
+                    for rr in x["result"]:
+                        if rr.get("property") == o["name"] and "trace" in rr:
+                            o["trace"] = compact_trace(rr["trace"], scratch)
+        except Exception:
+            o["trace"] = [{"note": "trace run failed or ran out of memory"}]
     # ---- loop contracts must have produced their obligations (a silently dropped contract only shows as a timeout)
     loops_seen = set(o["desc"].split("for loop ")[-1].strip() for o in obs if ".loop_invariant_step." in o["name"])
     res["loop_contracts_checked"] = sorted(loops_seen)
